@@ -97,6 +97,17 @@ def h_run(P, kinds, props, steps=3, mech="nbc", hibernation=True, L=2, generatio
             _c12_histories(P, w, tree, maximize)
         if "C20" in props:
             _purity(P, w, tree)
+            # what the accessors report is what the histories hold (a memo that goes stale while a deme sleeps shows up here)
+            better = (lambda a, b: a > b) if maximize else (lambda a, b: a < b)
+            for _, d in tree.all_demes:
+                mine = [ind for gen in d.history for ind in gen]
+                P.oblige("C20.deme_best_accessor_agrees_with_history", not any(better(x.fitness, d.best_individual.fitness) for x in mine)
+                         and any(d.best_individual is x for x in mine))
+            allinds = [ind for _, d in tree.all_demes for gen in d.history for ind in gen]
+            P.oblige("C20.tree_best_accessor_agrees_with_histories", not any(better(x.fitness, tree.best_individual.fitness) for x in allinds))
+            P.oblige("C20.summary_reports_current_best", f"Best fitness: {tree.best_individual.fitness:.4e}" in tree.summary().split("\n")[1]
+                     and not any(better(x.fitness, float(tree.summary().split("\n")[1].split(": ")[1])) and
+                                 f"{x.fitness:.4e}" != tree.summary().split("\n")[1].split(": ")[1] for x in allinds))
         if "C09" in props:
             for _, d in tree.all_demes:
                 if not d.current_population:
